@@ -428,12 +428,6 @@ class AshProtocol(asyncio.Protocol):
         _LOGGER.debug("Received data %s", data.hex())
         self._buffer.extend(data)
 
-        if len(self._buffer) > MAX_BUFFER_SIZE:
-            _LOGGER.debug(
-                "Truncating buffer to %s bytes, it is growing too fast", MAX_BUFFER_SIZE
-            )
-            self._buffer = self._buffer[-MAX_BUFFER_SIZE:]
-
         while self._buffer:
             if self._discarding_until_next_flag:
                 if bytes([Reserved.FLAG]) not in self._buffer:
@@ -498,6 +492,14 @@ class AshProtocol(asyncio.Protocol):
                 raise RuntimeError(
                     f"Unexpected reserved byte found: 0x{reserved_byte:02X}"
                 )  # pragma: no cover
+
+        # Bound only the unterminated remainder: truncating before parsing would drop
+        # complete frames contained in a large read
+        if len(self._buffer) > MAX_BUFFER_SIZE:
+            _LOGGER.debug(
+                "Truncating buffer to %s bytes, it is growing too fast", MAX_BUFFER_SIZE
+            )
+            self._buffer = self._buffer[-MAX_BUFFER_SIZE:]
 
     def _handle_ack(self, frame: DataFrame | AckFrame | NakFrame) -> None:
         # Note that ackNum is the number of the next frame the receiver expects and it
